@@ -38,3 +38,63 @@ func init() {
 	seed(Seed{Name: "read-caches-state", Prop: "C19", Rule: "FD-READ", File: fd,
 		Old: "\tstate := res.getState()\n\tif state == uninitialized {", New: "\tstate := res.getState()\n\tres.state = state\n\tif state == uninitialized {", Expect: "ReadValue:pure"})
 }
+
+func init() {
+	seed(Seed{Name: "abort-cancels-owed-broadcast", Prop: "C13", Rule: "CRDT-ARM", File: "distsys/resources/crdt.go",
+		Old: "\t\tres.value = res.oldValue\n\t\tres.hasOldValue = false\n", New: "\t\tres.value = res.oldValue\n\t\tres.hasOldValue = false\n\t\tres.needBroadcastCount = 0\n", Expect: "lowers-broadcast-budget"})
+	seed(Seed{Name: "lww-remove-needs-add", Prop: "C12", Rule: "MERGE-COMPONENT", File: "distsys/resources/lww.go",
+		Old: "\t\t\tselfVal, ok := s.remSet.Get(idTLA)\n", New: "\t\t\tif _, known := s.addSet.Get(idTLA); !known {\n\t\t\t\tcontinue\n\t\t\t}\n\t\t\tselfVal, ok := s.remSet.Get(idTLA)\n", Expect: "component(remSet)"})
+	seed(Seed{Name: "gcounter-merge-overwrites", Prop: "C12", Rule: "MERGE-MONO", File: "distsys/resources/gcounter.go",
+		Old: "if v, ok := c.Get(id); !ok || v < val {", New: "if v, ok := c.Get(id); !ok || v != val {", Expect: "GCounter.Merge"})
+	seed(Seed{Name: "vclock-merge-takes-min", Prop: "C12", Rule: "MERGE-MONO", File: "distsys/tla/vclock.go",
+		Old: "if idx1Val > idx2Val {", New: "if idx1Val < idx2Val {", Expect: "VClock.Merge"})
+	seed(Seed{Name: "aworset-readd-fresh-clock", Prop: "C12", Rule: "WRITE-INFLATES", File: "distsys/resources/aworset.go",
+		Old: "\t\t} else if remVC, remOk := s.remMap.Get(elem); remOk {\n\t\t\ts.addMap = s.addMap.Set(elem, remVC.inc(id))\n\t\t\ts.remMap = s.remMap.Delete(elem)\n\t\t} else {\n\t\t\ts.addMap = s.addMap.Set(elem, MakeVClock().inc(id))\n\t\t}",
+		New: "\t\t} else {\n\t\t\ts.addMap = s.addMap.Set(elem, MakeVClock().inc(id))\n\t\t\ts.remMap = s.remMap.Delete(elem)\n\t\t}", Expect: "fresh-clock"})
+	seed(Seed{Name: "lww-merge-uses-wall-clock", Prop: "C12", Rule: "MERGE-PURE", File: "distsys/resources/lww.go",
+		Old: "\t\t\t\ts.addSet = s.addSet.Set(id, otherTimeStamp)\n\t\t\t\tcontinue", New: "\t\t\t\ts.addSet = s.addSet.Set(id, time.Now())\n\t\t\t\tcontinue", Expect: "LWWSet.Merge"})
+	for _, p := range []string{"C01", "C04"} {
+		seed(Seed{Name: "return-restores-behind-resource", Prop: p, Rule: "RES-FIELDOWNER", File: "distsys/archetypeinterface.go",
+			Old: "\t\thandle := iface.RequireArchetypeResource(name.AsString())\n\t\terr = iface.Write(handle, nil, value)",
+			New: "\t\thandle := iface.RequireArchetypeResource(name.AsString())\n\t\tif local, ok := iface.ctx.getResourceByHandle(handle).(*LocalArchetypeResource); ok {\n\t\t\tlocal.value = value\n\t\t\tcontinue\n\t\t}\n\t\terr = iface.Write(handle, nil, value)", Expect: "Return:writes"})
+	}
+}
+
+func init() {
+	const tp = "distsys/resources/twopc.go"
+	seed(Seed{Name: "2pc-version-unchecked", Prop: "C11", Rule: "TPC-VERSION", File: tp,
+		Old: "\tassert(version > res.version, \"New version is not greater than current version\")\n", New: "", Expect: "acceptNewValue"})
+	seed(Seed{Name: "2pc-failed-precommit-not-rolled-back", Prop: "C11", Rule: "TPC-RELEASE", File: tp,
+		Old: "\t\tres.leaveMutex(\"PreCommitComplete\", write)\n\t\tres.rollback()\n", New: "\t\tres.leaveMutex(\"PreCommitComplete\", write)\n", Expect: "doPreCommit"})
+	seed(Seed{Name: "2pc-abort-keeps-precommit", Prop: "C11", Rule: "TPC-RELEASE", File: tp,
+		Old: "\t\t\tres.escapeMutex(\"abort\", write, res.rollback)\n", New: "", Expect: "Abort:rolls-back"})
+	seed(Seed{Name: "2pc-abort-unhandled", Prop: "C11", Rule: "TPC-EXHAUST", File: tp,
+		Old: "\tcase Abort:\n\t\t*reply = makeAccept()\n\t\tif !arg.Sender.Equal", New: "\tcase Abort + 100:\n\t\t*reply = makeAccept()\n\t\tif !arg.Sender.Equal", Expect: "handles(Abort)"})
+	const bs = "systems/raftkvs/bootstrap/server.go"
+	seed(Seed{Name: "votedfor-per-archetype", Prop: "C08", Rule: "RAFT-WIRING", File: bs,
+		Old: "\t\t\tvotedFor = votedForMaker.MakeLocalShared()\n", New: "\t\t\tvotedFor = resources.NewLocalSharedManager(raftkvs.Nil(iface)).MakeLocalShared()\n", Expect: "genResources"})
+	seed(Seed{Name: "log-not-shared", Prop: "C08", Rule: "RAFT-WIRING", File: bs,
+		Old: "\t\tlog := logMaker.MakeLocalShared()\n", New: "\t\t_ = logMaker\n\t\tlog := distsys.NewLocalArchetypeResource(tla.MakeTuple())\n", Expect: "genResources:log"})
+	seed(Seed{Name: "commitindex-aliases-matchindex", Prop: "C08", Rule: "RAFT-WIRING", File: bs,
+		Old: "\t\tcommitIndex := commitIndexMaker.MakeLocalShared()\n", New: "\t\t_ = commitIndexMaker\n\t\tcommitIndex := matchIndexMaker.MakeLocalShared()\n", Expect: "genResources:"})
+	seed(Seed{Name: "raft-lock-capacity", Prop: "C08", Rule: "LS-CAP1", File: "distsys/resources/localshared.go",
+		Old: "make(chan struct{}, 1)", New: "make(chan struct{}, 5)", Expect: "lockCh-init"})
+}
+
+func init() {
+	const tp = "distsys/resources/twopc.go"
+	seed(Seed{Name: "2pc-any-abort-releases", Prop: "C11", Rule: "TPC-ACCEPTOR", File: tp,
+		Old: "if !arg.Sender.Equal(twopc.acceptedPreCommit.Sender) {", New: "if arg.Version < twopc.acceptedPreCommit.Version {", Expect: "abort#1-only-from-owner"})
+	seed(Seed{Name: "2pc-catchup-keeps-precommit", Prop: "C11", Rule: "TPC-ACCEPTOR", File: tp,
+		Old: "\tif res.twoPCState == acceptedPreCommit && res.acceptedPreCommit.Version <= version {\n\t\tres.setTwoPCState(initial)\n\t}\n", New: "", Expect: "releases-decided-precommit"})
+	seed(Seed{Name: "2pc-accept-while-precommitting", Prop: "C11", Rule: "TPC-ACCEPTOR", File: tp,
+		Old: "} else if twopc.criticalSectionState.canAcceptPreCommit() && (twopc.twoPCState == initial ||", New: "} else if (twopc.twoPCState == initial ||", Expect: "respects-local-section"})
+	seed(Seed{Name: "2pc-new-value-does-not-poison", Prop: "C11", Rule: "TPC-ACCEPTOR", File: tp,
+		Old: "\tif res.inCriticalSection() {\n\t\tres.criticalSectionState = acceptedNewValueInCriticalSection\n\t}\n", New: "", Expect: "poisons-section"})
+	seed(Seed{Name: "hashmap-get-trusts-hash", Prop: "C05", Rule: "HASHMAP-EQ", File: "distsys/hashmap/hashmap.go",
+		Old: "\tfor _, e := range entries {\n\t\tif e.Key.Equal(k) {\n\t\t\treturn e.Value, true\n\t\t}\n\t}", New: "\tfor _, e := range entries {\n\t\treturn e.Value, true\n\t}", Expect: "HashMap.Get"})
+	seed(Seed{Name: "hashmap-set-overwrites-collision", Prop: "C05", Rule: "HASHMAP-EQ", File: "distsys/hashmap/hashmap.go",
+		Old: "\t\t\tif h.m[hash][i].Key.Equal(k) {\n\t\t\t\th.m[hash][i].Value = v\n\t\t\t\treturn\n\t\t\t}", New: "\t\t\th.m[hash][i].Value = v\n\t\t\treturn", Expect: "HashMap.Set"})
+	seed(Seed{Name: "number-equal-type-assertion", Prop: "C05", Rule: "DATA-ENCAPSULATED", File: "distsys/tla/value.go",
+		Old: "return other.IsNumber() && v.AsNumber() == other.AsNumber()", New: "o, ok := other.data.(*valueNumber)\n\treturn ok && v.V == o.V", Expect: "valueNumber"})
+}
